@@ -61,6 +61,18 @@ CHECKS["C14"] = dict(
          "the lexer-step harnesses. Redundant parentheses belong to C10.",
     design="§4 C14")
 
+CHECKS["C10"] = dict(
+    engine="E3 srcsym (source templates) + E2 mirsym (MIR -> z3)", technique="source-extracted printer templates + symbolic execution of the parenthesisation decision from MIR; z3 query over all (parent, slot, child); Python's ast as grouping oracle; native replay",
+    text="Bounded model checking over the complete operator set: the templates of the expression arms of to_py are "
+         "extracted from the current source and validated byte-for-byte against the real Display on every run; "
+         "needs_parens/precedence are executed symbolically from MIR with parent kind, child kind and side free; for "
+         "every (parent, slot, child) Python's own parser says whether the undelimited text regroups; z3 decides that "
+         "no such triple is left undelimited and every model is replayed through the real printer and ast.parse.",
+    note="Depth-2 trees (all pairs) exhaustively; deeper trees only by the context-freeness of Python's expression "
+         "grammar (assumed). 12 known findings (same-precedence right operands, int-literal attribute access) are "
+         "listed in known_findings.json. Statement-level layout is not part of C10.",
+    design="§4 C10")
+
 NOT_APPLICABLE = {
     "C02": "needs the generator executed on symbolic programs (core::fmt/to_py recursion does not finish in CBMC even on concrete 3-node trees) and membership in Python's grammar as the assertion; no encodable kernel (DESIGN §6)",
     "C04": "oracle is Python's dynamic semantics over whole programs and the subject is the whole checker (HashSet/recursion out of reach of Kani; not loop-free for the MIR executor) (DESIGN §6)",
